@@ -133,7 +133,16 @@ func (env *Env) typ(t *rapid.T, o TypeGenOpts, depth int, cmp bool, inGenSig boo
 	var cs []choice
 	co := o // generic signatures exist only as the type of a declared generic function: top level only
 	co.NoGenSig = true
-	add := func(w int, f func() *Desc) { cs = append(cs, choice{w, f}) }
+	leafDiv := 1
+	if depth >= 2 {
+		leafDiv = 4 // keep deep requests deep
+	}
+	add := func(w int, f func() *Desc) {
+		if len(cs) < 6 && depth > 0 { // the first choices are the leaves
+			w = (w + leafDiv - 1) / leafDiv
+		}
+		cs = append(cs, choice{w, f})
+	}
 	add(6, func() *Desc { return &Desc{K: KBasic, Basic: pick(t, "basic", BasicNames)} })
 	add(1, func() *Desc { return &Desc{K: KUnsafe} })
 	var named, generic []NamedInfo
@@ -241,7 +250,14 @@ func (env *Env) structDesc(t *rapid.T, o TypeGenOpts, d int, cmp, inGenSig bool)
 		}
 		if len(embeddable) > 0 && rapid.IntRange(0, 4).Draw(t, "embed") == 0 {
 			ni := pick(t, "embedded", embeddable)
-			f = Field{Name: ni.Name, Embedded: true, T: &Desc{K: KNamed, Name: ni.Name}}
+			fname := ni.Name
+			if i := strings.LastIndex(fname, "."); i >= 0 {
+				fname = fname[i+1:] // imported type: the field is named by the base name
+			}
+			if used[fname] {
+				continue
+			}
+			f = Field{Name: fname, Embedded: true, T: &Desc{K: KNamed, Name: ni.Name}}
 			if !ni.IsIface && ni.Kind != "ptr" && rapid.Bool().Draw(t, "embedptr") {
 				f.T = &Desc{K: KPtr, Elem: f.T}
 			}
